@@ -7,6 +7,7 @@ tree spec (JSON-able):
   ['preapp', child, aspec]            ['remapp', child]              ['byparty', overall, allocator|None]
   ['multi', [children], depth]        ['tiebr', main, breaker]       ['plist', party_eval, list_eval|None, conv|None]
   aspec: None | int | {constituency: int} | ['ev', tree]             conv: [id, name]
+  ['vsys', child]  votelib.VotingSystem around child (not in the Coq model: stream `unembedded` only)
 """
 import inspect
 from fractions import Fraction
@@ -116,9 +117,9 @@ class Ident:
 
 
 class Halve:
-    """simple votes -> simple votes, floor-halved (a harness-side converter that changes the votes)"""
+    """votes -> votes, every count floor-halved, at any nesting depth (a harness-side converter that changes the votes)"""
     def convert(self, v):
-        return {k: x // 2 for k, x in v.items()}
+        return {k: (self.convert(x) if isinstance(x, dict) else x // 2) for k, x in v.items()}
 
 
 def mk_leaf(nm, params):
@@ -198,6 +199,9 @@ class Built:
         elif k == 'tiebr':
             m = self._b(t[1])
             o = core.TieBreaking(m, self._b(t[2]))
+        elif k == 'vsys':
+            import votelib
+            o = votelib.VotingSystem('x', self._b(t[1]))
         elif k == 'plist':
             p = self._b(t[1])
             le = self._b(t[2]) if t[2] is not None else None
@@ -240,6 +244,8 @@ def wire(t):
         if t[2] is None:
             return '(14 %s)' % wire(t[1])
         return '(15 %s %s %s)' % (wire(t[1]), wire(t[2]), '()' if t[3] is None else '(%d)' % t[3][0])
+    if k == 'vsys':
+        raise Unencodable('VotingSystem is not embedded in the model')
     raise ValueError(k)
 
 
@@ -279,7 +285,7 @@ class Hand:
             return nm in leaf_params(self.parts[t[1]])
         if k == 'pre':
             return self.takes(t[3], nm)
-        if k in ('post', 'tiebr'):
+        if k in ('post', 'tiebr', 'vsys'):
             return self.takes(t[1], nm)
         if k == 'fixed':
             return nm != 'n_seats' and self.takes(t[1], nm)
@@ -319,6 +325,8 @@ class Hand:
             return self.tiebr(t, votes, **a)
         if k == 'plist':
             return self.plist(t, votes, **a)
+        if k == 'vsys':                                  # the system object adds nothing
+            return self.run(t[1], votes, **a)
         raise ValueError(k)
 
     # conditioning = evaluating on the votes restricted to the candidates the eliminator passed
